@@ -305,6 +305,14 @@ func ruleAuthGate(r *Run) {
 						c = fmt.Sprintf("var@%d:%s", obj.Pos(), tag)
 					}
 				}
+				// where the value was created, through locals, option structs and parameters of single-call-site helpers
+				if o, ofn := r.originOf(bfn, bx, 0); o != nil && ofn != nil {
+					if call, isCall := ast.Unparen(o).(*ast.CallExpr); isCall {
+						if oc := r.P.Canon(ofn, call); strings.Contains(oc, "NewClient(") {
+							c = fmt.Sprintf("created@%d:NewClient(", call.Pos())
+						}
+					}
+				}
 				args = append(args, c)
 			}
 		}
